@@ -67,6 +67,12 @@ def check(case: dict):
     require(not bad, "C06:token-outside-vocabulary", f"{bad[:5]} not in the vocabulary; params={params}")
     prob = M.check_stream(params, toks, kind, g, sol)
     require(prob is None, f"C06:{_which(prob)}", f"{prob}; kind={kind} grid={g['r']} sol={sol[:6]}{'..' if len(sol) > 6 else ''} params={json.dumps(params)}")
+    if core.digest(case) % 4 == 0:
+        # the caller empties the list it was given and asks again
+        toks.clear()
+        toks3 = call("C06:to_tokens", tok.to_tokens, m)
+        prob3 = M.check_stream(params, toks3, kind, g, sol)
+        require(prob3 is None, f"C06:{_which(prob3)}", f"second call after the caller emptied the first result: {prob3}; params={json.dumps(params)}")
     if case.get("via_maze"):
         # the same through the maze's own entry point
         toks2 = call("C06:as_tokens", m.as_tokens, tok)
